@@ -839,6 +839,8 @@ def eval_grow(ctx, cases):
     from shelxfile import Shelxfile
     for s in ('angle', 'torsion'):
         ctx.stream(s)
+    quads = (('C3', 'C2', 'C1', "C1'"), ('C2', 'C1', "C1'", "C3'"), ("C3'", "C2'", "C1'", 'C1'))
+    grown, reqs = [], []
     for case in cases:
         m = ortho(case['cell'])
         placed = [place(m, p) for p in case['pts']]
@@ -858,16 +860,18 @@ def eval_grow(ctx, cases):
         if sorted(orig) != ['C1', 'C2', 'C3'] or sorted(img) != ['C1', 'C2', 'C3'] or len(g) != 6:
             ctx.count(['grow', case['cell'], case['pts']], nontrivial=False, tags=['kind=grow', 'grow: image not generated (C14)'])
             continue
-        quads = (('C3', 'C2', 'C1', "C1'"), ('C2', 'C1', "C1'", "C3'"), ("C3'", "C2'", "C1'", 'C1'))
-        pick = lambda n: img[n[:2]] if n.endswith("'") else orig[n]
-        reqs = []
-        for q in quads:
-            four = [pick(n) for n in q]
-            reqs.append(dict(p='C15', op='geomfrac', cell=case['cell'], fracs=[list(map(float, a.frac_coords)) for a in four],
-                             added=[bool(a.symmgen) for a in four]))
-        ans = ctx.driver.batch(reqs)
-        for q, rq, d in zip(quads, reqs, ans):
-            four = [pick(n) for n in q]
+        pick = lambda n, img=img, orig=orig: img[n[:2]] if n.endswith("'") else orig[n]
+        fours = [[pick(n) for n in q] for q in quads]
+        mine = [dict(p='C15', op='geomfrac', cell=case['cell'], fracs=[list(map(float, a.frac_coords)) for a in four],
+                     added=[bool(a.symmgen) for a in four]) for four in fours]
+        grown.append((case, m, base, shx, fours, mine))
+        reqs.extend(mine)
+    ans = ctx.driver.batch(reqs)      # one call for the whole chunk: every call starts the driver anew
+    k = 0
+    for case, m, base, shx, fours, mine in grown:
+        for q, four, rq in zip(quads, fours, mine):
+            d = ans[k]
+            k += 1
             carts = [matvec(m, f) for f in rq['fracs']]
             if not general(carts):
                 continue
@@ -920,8 +924,9 @@ def run(ctx):
     # against.  For C15 the arithmetic of the edited code is tied to the model for ALL inputs on every run by the `src_…`
     # theorems over the traced source (ShelxProps/C15.lean, extract/trace_c15.py), so the extra sampling is there for what
     # tracing does not see (object plumbing, histories, the filter of find_atoms_around, rounding at planar arrangements):
-    # four times the quick budget, twice for the slow grow() stream, instead of the 16–20 times of the thorough tier
-    # (which took 6–7 minutes of a quick-tier run for any edit of those two files).
+    # four times the quick budget (eight times for the cheap grow() stream) instead of the 16–20 times of the thorough tier.
+    # (The 6–7 minutes such a run used to take were mostly the grow stream starting the driver once per case; eval_grow
+    # now sends one batch per chunk.)
     n = budget(ctx, 3000, 12000, 60000)
     m = budget(ctx, 1200, 5000, 15000)
     cases = [WITNESS, CLOCKWISE, TYPO]
@@ -931,7 +936,7 @@ def run(ctx):
         cases.append(make_around(ctx.rng))
     for _ in range(budget(ctx, 1200, 5000, 20000)):
         cases.append(make_route(ctx.rng))
-    for _ in range(budget(ctx, 250, 500, 4000)):
+    for _ in range(budget(ctx, 250, 2000, 4000)):
         cases.append(make_grow(ctx.rng))
     for i in range(0, len(cases), 1000):
         evaluate(ctx, cases[i:i + 1000])
